@@ -55,7 +55,7 @@ def main(a):
         confirmed = None
         for r in sorted(rs, key=lambda r: (r["n"], r["input"]))[:5]:
             src = scanner.render(tts_of(r))
-            p = subprocess.run([res["validator_bin"], "replay", src], capture_output=True, text=True)
+            p = subprocess.run([res["validator_bin"], "replay", scanner.describe_tts(tts_of(r))], capture_output=True, text=True)
             if p.returncode in (1, 3):
                 confirmed = (r, src, p.stdout)
                 break
@@ -122,7 +122,7 @@ def replay(path):
     scratch = common.scratch_dir(PROP + "-replay")
     b = build.build_scan_wrapper(scratch)
     v = build.build_scan_validator(scratch, b["dir"])
-    p = subprocess.run([v, "replay", j["arguments"]], capture_output=True, text=True)
+    p = subprocess.run([v, "replay", scanner.describe_tts(j["token_trees"])], capture_output=True, text=True)
     print(p.stdout)
     if p.returncode in (1, 3):
         print("VIOLATION property=%s replay=%s" % (PROP, path))
